@@ -274,7 +274,7 @@ pub fn run(ctx: &Ctx) -> i32 {
     let kinds: Vec<ErrorKind> = if thorough { FAULT_KINDS.to_vec() } else { vec![ErrorKind::Other, ErrorKind::UnexpectedEof] };
     let cap = ctx.tier.pick(250, 3000);
     // writers
-    let n = ctx.n(16, 200);
+    let n = ctx.n(60, 400);
     ctx.par("writer", n, true, |idx, rng| {
         let (entries, mut cfg, _) = gen::gen_file_case(rng, 12_000);
         if idx % 2 == 0 {
@@ -286,7 +286,7 @@ pub fn run(ctx: &Ctx) -> i32 {
     });
     // readers: every codec at least once
     let codecs = gen::codecs();
-    let n = ctx.n(12, 200).max(codecs.len());
+    let n = ctx.n(40, 400).max(codecs.len());
     ctx.par("reader", n, true, |idx, rng| {
         let (entries, mut cfg, _) = gen::gen_file_case(rng, 12_000);
         cfg.codec = codecs[idx as usize % codecs.len()];
@@ -301,7 +301,7 @@ pub fn run(ctx: &Ctx) -> i32 {
         enumerate(ctx, "reader", idx, "reader", J::obj().set("config", cfg.render()).set("n_entries", entries.len()), &*sc, &kinds, cap, rng);
     });
     // mergers
-    let n = ctx.n(12, 200);
+    let n = ctx.n(40, 400);
     ctx.par("merger", n, true, |idx, rng| {
         let case = c06::gen_case(rng);
         let mut files = Vec::new();
@@ -318,7 +318,7 @@ pub fn run(ctx: &Ctx) -> i32 {
         enumerate(ctx, "merger", idx, "merger", d, &*sc, &kinds, cap, rng);
     });
     // sorters with spills and chunk merges
-    let n = ctx.n(18, 300);
+    let n = ctx.n(60, 600);
     ctx.par("sorter", n, true, |idx, rng| {
         let mut scfg = gen_scfg(rng);
         scfg.parallel = false;
